@@ -393,6 +393,19 @@ fn check_update_fields(rep: &mut Report, case: u64, world: &World, s: &Setup, ps
                         bad.push(format!("tap_key_origins lacks key {}", k));
                     }
                 }
+                // ... completely: a leaf whose script names the key (or its hash) is listed under that
+                // key, the internal key included when it is reused inside a leaf
+                for (x, (leaves, _)) in &inp.tap_key_origins {
+                    let kh = hash160::Hash::hash(&x.serialize()).to_byte_array();
+                    for p in ip.target.paths.iter() {
+                        if let Some(lh) = p.leaf_hash {
+                            let named = p.script.windows(32).any(|w| w == x.serialize()) || p.script.windows(20).any(|w| w == kh);
+                            if named && !leaves.contains(&lh) {
+                                bad.push(format!("tap_key_origins of {} omits a leaf that names the key", if Some(*x) == inp.tap_internal_key { "the internal key" } else { "a leaf key" }));
+                            }
+                        }
+                    }
+                }
                 for (x, (leaves, _)) in &inp.tap_key_origins {
                     for lh in leaves {
                         let kh = hash160::Hash::hash(&x.serialize()).to_byte_array();
